@@ -153,6 +153,7 @@ pub fn run_case(kind: &str, t: &mut Toks) -> String {
             )
         }
         "tess" => crate::tess::run(t),
+        "clip" => crate::clip::run(t),
         "nn" => {
             // nn <dim> <periodic> <width:3> <n> <gens:3n> <nq> <queries>  (width = the normalised width)
             let dim = t.dim();
